@@ -34,7 +34,7 @@ class Calls:
                      'is_none', 'hashable', 'callraises', 'call', 'fresh_obj', 'is_int_key', 'int_key', 'ite', 'attr',
                      'has_attr', 'catches', 'exc_is', 'iff', 'dynattr', 'truthy', 'key_at', 'idx_of', 'old', 'is_fresh',
                      'seq_of', 'card', 'same_elements', 'typeof', 'callv', 'callvraises', 'isinst_dyn', 'lt', 'unhashable_any',
-                     'mhas', 'mget', 'shas', 'without_key', 're_compile_raises', 're_compile', 'as_map', 'as_seq', 'as_set', 'sat', 'slen', 'mlen', 'methraises', 'methcall', 'gen_of', 'nth_where', 'count_where', 'ghost', 'zlen', 'isfinite'}
+                     'mhas', 'mget', 'shas', 'without_key', 're_compile_raises', 're_compile', 'as_map', 'as_seq', 'as_set', 'sat', 'slen', 'mlen', 'methraises', 'methcall', 'gen_of', 'nth_where', 'count_where', 'ghost', 'zlen', 'isfinite', 'ret_make_converter', 'ret_into_data', 'ret', 'clsref', 'id_of'}
 
     # ------------------------------------------------------------------------------------
     def ev_Call(self, node, st):
@@ -677,20 +677,13 @@ class Calls:
             rng = z3.And(i >= 0, i < gg.n)
             if target in ('list', 'tuple'):
                 if gg.keep is not None:
-                    # filtered: result is an order-preserving subsequence; only membership-level facts are kept
-                    r = th.fresh('filtered')
+                    # filtered: element j of the result is the j-th KEPT source element (canonical enumeration)
+                    cnt, pos, rank = self.kept_positions(lambda t, s_: self.gen_at(gg, gg.keep, t), gg.n, s)
+                    r = th.fresh('filtered_' + target)
                     j = th.fresh('j', th.I)
-                    s.add(th.vlen(r) >= 0, th.vlen(r) <= gg.n, r != th.NoneV, th.isc(target)(r))
-                    pos = th.fn('fpos_' + str(r), th.I, th.I)
-                    # every result element is a kept source element, in increasing source position
-                    s.add(z3.ForAll([j], z3.Implies(z3.And(j >= 0, j < th.vlen(r)),
-                                                    z3.And(pos(j) >= 0, pos(j) < gg.n, self.gen_at(gg, gg.keep, pos(j)),
-                                                           z3.Select(th.sq_arr(r), j) == self.gen_at(gg, gg.val, pos(j))))))
-                    s.add(z3.ForAll([j], z3.Implies(z3.And(j >= 0, j + 1 < th.vlen(r)), pos(j) < pos(j + 1))))
-                    # every kept source element appears
-                    inv = th.fn('finv_' + str(r), th.I, th.I)
-                    s.add(z3.ForAll([j], z3.Implies(z3.And(j >= 0, j < gg.n, self.gen_at(gg, gg.keep, j)),
-                                                    z3.And(inv(j) >= 0, inv(j) < th.vlen(r), pos(inv(j)) == j))))
+                    s.add(th.vlen(r) == cnt, r != th.NoneV, th.isc(target)(r), th.truthy(r) == (cnt > 0),
+                          z3.ForAll([j], z3.Implies(z3.And(j >= 0, j < cnt),
+                                                    z3.Select(th.sq_arr(r), j) == self.gen_at(gg, gg.val, pos(j)))))
                     return [(VVal(r, fresh=True, kind='seq'), s)]
                 # (no z3 lambda here: a fresh array constrained pointwise keeps the query in the decidable array fragment)
                 t = th.fresh('built_' + target)
